@@ -2,6 +2,7 @@ import GMGDriver.GridDrv
 import GMGDriver.LinalgDrv
 import GMGDriver.ObjectsDrv
 import GMGDriver.OpsDrv
+import GMGDriver.TransferDrv
 
 def main (args : List String) : IO UInt32 := do
   match args with
@@ -10,6 +11,7 @@ def main (args : List String) : IO UInt32 := do
   | ["lu"] => LinalgDrv.luMain
   | ["objects"] => ObjectsDrv.main
   | ["residual"] => OpsDrv.residualMain
+  | ["transfer"] => TransferDrv.main
   | _ => do
     IO.eprintln "usage: gmgdriver <grid|tridiag|lu|...>  (reads the harness line protocol on stdin)"
     return 2
